@@ -192,6 +192,9 @@ LEMMAS = {
     'C11': 'Also: every operation kind once from an arbitrary variable map and an arbitrary scope stack of depth 0-2, stack compared entry by entry afterwards '
            '(histories of any length by induction, DESIGN.md 8.9).',
     'C15': 'Also: set / remove / lookups once from an arbitrary registry over the universe satisfying the stated invariant, invariant re-established (DESIGN.md 8.9).',
+    'C09': 'Also: lemmas for the re-serialiser utils::eval::parse (one argument-loop iteration from an arbitrary buffer; post-processing; the text of a value is its '
+           'rendering with only the backslash escaped) + the scanner and argument-list lemmas that read that text back: values of any length outside the listed classes '
+           '(DESIGN.md 8.19).',
     'C10': 'Also: every operation once from an arbitrary error-protocol state with the state compared field by field afterwards, and the error-related '
            'obligations of the runner step lemma (DESIGN.md 8.7, 8.9).',
     'C14': 'Also: lemmas for the include argument loop (25 includer/path pairs, arbitrary collected list and parse_file result), directive dispatch, parse_file, '
